@@ -43,6 +43,7 @@ func checkC10Loop(c C05Case, o *vcore.Obs) error {
 		}
 	}
 	appCommits := 0
+	commitsBy := map[string]int{}
 	for oi, op := range c.Ops {
 		before := lm.LastTxnID(f.nodes[op.Inst%c.N].Env.Env)
 		if err := f.exec(oi, op); err != nil {
@@ -50,6 +51,7 @@ func checkC10Loop(c C05Case, o *vcore.Obs) error {
 		}
 		if op.Kind == "app" && lm.LastTxnID(f.nodes[op.Inst%c.N].Env.Env) != before {
 			appCommits++
+			commitsBy[f.nodes[op.Inst%c.N].Name]++
 		}
 	}
 	// ---- write-free phase
@@ -87,9 +89,14 @@ func checkC10Loop(c C05Case, o *vcore.Obs) error {
 	for _, nd := range f.nodes {
 		total += storesBy(f.b, nd.Name, 0)
 	}
-	if total > appCommits+c.N {
-		return fmt.Errorf("%d snapshots uploaded for %d application commits and %d instance starts: an instance uploads only after a local change or at start-up", total, appCommits, c.N)
+	// every instance starts with an empty LMDB here (no start-up upload): each upload needs its own
+	// preceding local application commit
+	for _, nd := range f.nodes {
+		if n := storesBy(f.b, nd.Name, 0); n > commitsBy[nd.Name] {
+			return fmt.Errorf("%s uploaded %d snapshots but its application committed only %d transactions: an instance uploads only after a local application change (echo upload)", nd.Name, n, commitsBy[nd.Name])
+		}
 	}
+	_ = total
 	// and everybody holds the same data now
 	var ref map[string]map[string]Ver
 	for i := range f.nodes {
@@ -174,7 +181,7 @@ func genC10Loop(t *rapid.T) C05Case {
 
 func TestC10Loop(t *testing.T) {
 	vcore.Run(t, vcore.Config{Property: "C10", Inflight: true,
-		Rule: "2-3 real sync loops under the scheduler with interleaved application commits, then a write-free phase of 2N+2 rounds (two loop iterations per instance and round): every instance uploads at most twice more (one upload in flight + one pending), no upload at all from the third round on, total uploads <= recorded application commits + instance starts, identical content at the end; non-trivial = >=2 instances wrote and data was exchanged"},
+		Rule: "2-3 real sync loops under the scheduler with interleaved application commits, then a write-free phase of 2N+2 rounds (two loop iterations per instance and round): every instance uploads at most twice more (one upload in flight + one pending), no upload at all from the third round on, uploads of an instance <= its recorded application commits (instances start empty), identical content at the end; non-trivial = >=2 instances wrote and data was exchanged"},
 		genC10Loop, checkC10Loop)
 }
 
@@ -184,14 +191,14 @@ func TestC10Loop(t *testing.T) {
 // ---------------------------------------------------------------------------
 
 type RunOnceCase struct {
-	Native    bool      `json:"native"`
-	Peers     int       `json:"peers"`
-	PerPeer   int       `json:"per_peer"`
-	OwnBlob   bool      `json:"own_blob"`
-	LocalData bool      `json:"local_data"`
-	LoadFails int       `json:"load_fails"`
-	Corrupt   int       `json:"corrupt"` // 0 none, 1 newest of peer 1 is undecodable, 2 the only snapshot of the last peer is
-	Late      bool      `json:"late"`    // a new peer appears after start-up (must not be waited for)
+	Native    bool `json:"native"`
+	Peers     int  `json:"peers"`
+	PerPeer   int  `json:"per_peer"`
+	OwnBlob   bool `json:"own_blob"`
+	LocalData bool `json:"local_data"`
+	LoadFails int  `json:"load_fails"`
+	Corrupt   int  `json:"corrupt"` // 0 none, 1 newest of peer 1 is undecodable, 2 the only snapshot of the last peer is
+	Late      bool `json:"late"`    // a new peer appears after start-up (must not be waited for)
 }
 
 func checkRunOnce(c RunOnceCase, o *vcore.Obs) error {
